@@ -1,7 +1,8 @@
 /-
 Audit: for every module named on the command line, list every theorem declared in that module
 together with the axioms it (transitively) depends on, one JSON object per line.
-Own traversal of the kernel environment: no reliance on cached axiom tables.
+Own traversal of the kernel environment (direct dependencies cached per constant, a full
+reachability search per theorem): no reliance on cached axiom tables.
 Run:  lake env lean --run Audit.lean KawinV.Props.C07 [...]
 -/
 import Lean
@@ -10,23 +11,42 @@ open Lean
 def jsonStr (s : String) : String := "\"" ++ s ++ "\""
 
 structure St where
-  seen : NameSet := {}
-  axioms : NameSet := {}
+  deps : NameMap (Array Name) := {}      -- direct dependencies, computed once per constant
+  isAx : NameSet := {}
 
-partial def visit (env : Environment) (c : Name) : StateM St Unit := do
-  if (← get).seen.contains c then return
-  modify fun s => { s with seen := s.seen.insert c }
-  let go (e : Expr) : StateM St Unit := e.getUsedConstants.forM (visit env)
-  match env.find? c with
-  | some (.axiomInfo v)  => modify (fun s => { s with axioms := s.axioms.insert c }); go v.type
-  | some (.defnInfo v)   => go v.type *> go v.value
-  | some (.thmInfo v)    => go v.type *> go v.value
-  | some (.opaqueInfo v) => go v.type *> go v.value
-  | some (.quotInfo _)   => pure ()
-  | some (.ctorInfo v)   => go v.type
-  | some (.recInfo v)    => go v.type
-  | some (.inductInfo v) => go v.type *> v.ctors.forM (visit env)
-  | none                 => pure ()
+/-- direct dependencies of a constant (cached) -/
+def depsOf (env : Environment) (c : Name) : StateM St (Array Name) := do
+  if let some d := (← get).deps.find? c then return d
+  let used (e : Expr) : Array Name := e.getUsedConstants
+  let d : Array Name := match env.find? c with
+    | some (.axiomInfo v)  => used v.type
+    | some (.defnInfo v)   => used v.type ++ used v.value
+    | some (.thmInfo v)    => used v.type ++ used v.value
+    | some (.opaqueInfo v) => used v.type ++ used v.value
+    | some (.quotInfo _)   => #[]
+    | some (.ctorInfo v)   => used v.type
+    | some (.recInfo v)    => used v.type
+    | some (.inductInfo v) => used v.type ++ v.ctors.toArray
+    | none                 => #[]
+  let ax := match env.find? c with | some (.axiomInfo _) => true | _ => false
+  modify fun s => { s with deps := s.deps.insert c d, isAx := if ax then s.isAx.insert c else s.isAx }
+  return d
+
+/-- axioms reachable from `c`: plain graph search over the cached dependency graph -/
+def axiomsOf (env : Environment) (c : Name) : StateM St NameSet := do
+  let mut seen : NameSet := {}
+  let mut axs : NameSet := {}
+  let mut todo : Array Name := #[c]
+  while h : todo.size > 0 do
+    let x := todo[todo.size - 1]
+    todo := todo.pop
+    if seen.contains x then continue
+    seen := seen.insert x
+    let d ← depsOf env x
+    if (← get).isAx.contains x then axs := axs.insert x
+    for y in d do
+      if !seen.contains y then todo := todo.push y
+  return axs
 
 def main (args : List String) : IO UInt32 := do
   initSearchPath (← findSysroot)
@@ -42,10 +62,9 @@ def main (args : List String) : IO UInt32 := do
         match env.find? c with
         | some (.thmInfo _) =>
           if c.isInternalDetail then continue
-          -- fresh axiom set per theorem, shared `seen` would hide axioms: restart seen as well
-          let ((), s) := (visit env c).run {}
-          st := s
-          let axs := s.axioms.toList.map (fun a => jsonStr a.toString)
+          let (a, s') := (axiomsOf env c).run st
+          st := s'
+          let axs := a.toList.map (fun a => jsonStr a.toString)
           IO.println s!"\{\"module\": {jsonStr m.toString}, \"theorem\": {jsonStr c.toString}, \"axioms\": [{", ".intercalate axs}]}"
         | _ => pure ()
   return 0
